@@ -32,7 +32,7 @@ def v_of_u(f, u):
 
 def gen_weights(rng, f):
     n = rng.choice([1, 2, 3, 4, 5, 8, 16, 33, 64]) if rng.random() < 0.5 else rng.randint(1, 64)
-    style = rng.choice(["dyadic", "dyadic", "random", "ints", "tiny"])
+    style = rng.choice(["dyadic", "dyadic", "random", "ints", "tiny", "subnormal"])
     ws = []
     for _ in range(n):
         if rng.random() < 0.3:
@@ -41,6 +41,10 @@ def gen_weights(rng, f):
             ws.append(2.0 ** rng.randint(-6, 3))
         elif style == "ints":
             ws.append(float(rng.randint(1, 9)))
+        elif style == "subnormal":
+            # the whole weight vector lives in the subnormal range (exp of log-likelihoods near -100 / -740): the total is so small
+            # that its reciprocal overflows, p / total does not
+            ws.append(rng.randint(1, 1000) * (2.0 ** -149 if f == "f32" else 2.0 ** -1074))
         elif style == "tiny":
             ws.append(rng.choice([1.0, 2.0 ** -30, 2.0 ** -60]))
         else:
